@@ -71,7 +71,7 @@ Proof.
   intros Hs. unfold holder_build.
   apply obind_no_panic; [apply jwt_parts_m_no_panic|]. intros [[a b] c].
   apply obind_no_panic; [apply of_res_no_panic|]. intros claims.
-  destruct (jhas "cnf" claims && _); [discriminate|]. destruct (jhas "cnf" claims); [|discriminate].
+  destruct (kb_bound claims && _); [discriminate|]. destruct (kb_bound claims); [|discriminate].
   destruct (declared_halg _); [|discriminate]. destruct (h_kb h) as [[aud jalg]|]; [|discriminate].
   apply obind_no_panic; [apply Hs|]. discriminate.
 Qed.
